@@ -34,7 +34,11 @@ def action_consts(model):
     return out
 
 
-def at_rules(ctx, I):
+def at_rules(ctx, I, rmap=None):
+    rmap = rmap or {}
+
+    def R(r):
+        return rmap.get(r, r)
     consts = action_consts(ctx.model)
     if 'ENABLE_EXCLUSION' not in consts or 'DISABLE_EXCLUSION' not in consts:
         raise AnalysisError('anchor vanished: ENABLE_EXCLUSION / DISABLE_EXCLUSION')
@@ -47,99 +51,116 @@ def at_rules(ctx, I):
         f = Facts(p, I)
         where = 'GcodeHandlers.handleAtCommand'
         streaming = p.dec(STREAMING)
-        action = None
-        acted = False
+        acts = []           # actions of the matching entries, in the order the handler met them
         for k, facts in s.dom.items():
             if k[0] == 'valueof' and 'action' in repr(k[1]):
-                acted = True
+                name = None
                 for fct in facts:
                     if isinstance(fct[1], tuple) and fct[1][0] == 'str':
                         DISPATCHED.add(fct[1][1])
                     if fct[0] == 'is':
-                        action = fct[1][1]
+                        name = fct[1][1]
+                acts.append(name)
+        acted = bool(acts)
         writes = [(e[2], live_alts(s, e[3])) for e in s.trace if e[0] == 'write' and e[1] == 'ExcludeRegionState'
                   and e[2] not in ('numCommands', 'numExcludedCommands')]
         sends = [e[2][0] if e[2] else None for e in s.trace if e[0] == 'ext' and e[1].endswith('sendCommand')]
         other = [e for e in s.trace if (e[0] == 'ext' and not e[1].endswith('sendCommand') and
                                         not e[1].endswith('isStreaming') and '.match' not in e[1])
                  or e[0].startswith('seq-') and ('fresh', str(e[1])) not in s.flags and '@' not in str(e[1])]
-        tag = 'streaming=%s action=%s enabled=%s excluding=%s' % (streaming, action if acted else 'no-match',
-                                                                  f.pre_enabled, f.pre_excluding)
+        tag = 'streaming=%s actions=%s enabled=%s excluding=%s' % (streaming, '+'.join(a or 'other' for a in acts) if acted else 'no-match',
+                                                                   f.pre_enabled, f.pre_excluding)
         if isinstance(v, Raised):
-            ctx.instance('C14.R0', tag)
-            ctx.report('C14.R0', where, tag + ' raises', repr(v))
+            ctx.instance(R('C14.R0'), tag)
+            ctx.report(R('C14.R0'), where, tag + ' raises', repr(v))
             continue
         if streaming is not False or not acted:
-            ctx.instance('C14.R4', tag)
+            ctx.instance(R('C14.R4'), tag)
             if streaming is None:
-                ctx.report('C14.R4', where, 'streaming not consulted', 'a path never asks whether the file is streamed to SD')
+                ctx.report(R('C14.R4'), where, 'streaming not consulted', 'a path never asks whether the file is streamed to SD')
             if v is not False or writes or sends:
-                ctx.report('C14.R4', where, tag, 'returns %r with writes %s and %d sends; must be False without effect'
+                ctx.report(R('C14.R4'), where, tag, 'returns %r with writes %s and %d sends; must be False without effect'
                            % (v, [w[0] for w in writes], len(sends)))
             continue
-        ctx.instance('C14.R0', tag)
+        ctx.instance(R('C14.R0'), tag)
         wnames = [w[0] for w in writes]
-        if action == EN:
-            bad = [w for w in writes if w[0] != '_exclusionEnabled' or w[1] != [True]]
-            if bad or sends or (f.pre_enabled is False and not writes):
-                ctx.report('C14.R0', where, 'enable: ' + tag, 'the enable action must set the flag and do nothing else '
-                           '(writes %s, %d sends)' % (wnames, len(sends)))
-        elif action == DIS:
-            if f.pre_enabled is True:
-                ew = [w for w in writes if w[0] == '_exclusionEnabled']
-                if len(ew) != 1 or ew[0][1] != [False]:
-                    ctx.report('C14.R0', where, 'disable: ' + tag, 'the disable action does not clear the enabled flag')
-            ctx.instance('C14.R2', tag)
-            if f.pre_enabled is True and f.pre_excluding is None:
-                ctx.report('C14.R2', 'ExcludeRegionState.disableExclusion', 'disable does not look for an open episode',
-                           'a disable action is carried out without consulting whether an episode is open: an open episode '
-                           'would stay open although exclusion is now off')
-            if f.pre_enabled is True and f.pre_excluding is True:
-                if f.post_excluding() is not False:
-                    ctx.report('C14.R2', where, 'disable leaves the episode open', tag)
-                # the list built by exitExcludedRegion
-                lists = [oid for oid, sq in s.seqs.items() if any(isinstance(x, Cat) and x.skeleton() == 'G92 E{}' for x in sq)]
-                if not lists:
-                    ctx.report('C14.R2', where, 'disable without exit sequence', 'an open episode is closed without '
-                               're-synchronisation commands: ' + tag)
-                else:
-                    elems = s.seqs[lists[0]]
-                    want = []
-                    for el in elems:
-                        if isinstance(el, Star):
-                            want.append('star:' + el.tag)
+        # reference: the matching actions applied one after the other to (enabled, excluding)
+        en, exc = f.pre_enabled, f.pre_excluding
+        want_flag_writes = []
+        exit_expected = False
+        unconsulted = False
+        for a in acts:
+            if a == EN:
+                if en is not True:
+                    want_flag_writes.append([True])
+                en = True
+            elif a == DIS:
+                if en is not False:
+                    want_flag_writes.append([False])
+                    if exc is True:
+                        exit_expected = True
+                        exc = False
+                    elif exc is None:
+                        unconsulted = True
+                en = False
+        got_flag_writes = [w[1] for w in writes if w[0] == '_exclusionEnabled']
+        if got_flag_writes != want_flag_writes:
+            ctx.report(R('C14.R0'), where, 'flag writes %s for %s' % (got_flag_writes, tag),
+                       'applying the matching actions in order must write the enabled flag %s (enable sets it, disable clears '
+                       'it, anything else leaves it alone)' % want_flag_writes)
+        if DIS in acts:
+            ctx.instance(R('C14.R2'), tag)
+        if unconsulted:
+            ctx.report(R('C14.R2'), 'ExcludeRegionState.disableExclusion', 'disable does not look for an open episode',
+                       'a disable action is carried out without consulting whether an episode is open: an open episode '
+                       'would stay open although exclusion is now off')
+        if exit_expected:
+            if f.post_excluding() is not False:
+                ctx.report(R('C14.R2'), where, 'disable leaves the episode open', tag)
+            # the list built by exitExcludedRegion
+            lists = [oid for oid, sq in s.seqs.items() if any(isinstance(x, Cat) and x.skeleton() == 'G92 E{}' for x in sq)]
+            if not lists:
+                ctx.report(R('C14.R2'), where, 'disable without exit sequence', 'an open episode is closed without '
+                           're-synchronisation commands: ' + tag)
+            else:
+                elems = s.seqs[lists[0]]
+                want = []
+                for el in elems:
+                    if isinstance(el, Star):
+                        want.append('star:' + el.tag)
+                    else:
+                        want.append(classify(live_alts(s, el)[0]))
+                got = []
+                for a in sends:
+                    if isinstance(a, Opaque) and '[' in a.tag:
+                        got.append('star:' + a.tag.split('[')[0])
+                    else:
+                        got.append(classify(a))
+                # stars may expand to zero or more sends
+                gi = 0
+                ok = True
+                for w in want:
+                    if w.startswith('star:'):
+                        while gi < len(got) and got[gi] == w:
+                            gi += 1
+                    else:
+                        if gi < len(got) and got[gi] == w:
+                            gi += 1
                         else:
-                            want.append(classify(live_alts(s, el)[0]))
-                    got = []
-                    for a in sends:
-                        if isinstance(a, Opaque) and '[' in a.tag:
-                            got.append('star:' + a.tag.split('[')[0])
-                        else:
-                            got.append(classify(a))
-                    # stars may expand to zero or more sends
-                    gi = 0
-                    ok = True
-                    for w in want:
-                        if w.startswith('star:'):
-                            while gi < len(got) and got[gi] == w:
-                                gi += 1
-                        else:
-                            if gi < len(got) and got[gi] == w:
-                                gi += 1
-                            else:
-                                ok = False
-                    if gi != len(got) or not ok:
-                        ctx.report('C14.R2', where, 'sent %s' % got, 'the commands sent to the printer differ from the exit '
-                                   'sequence %s (each exactly once, in order)' % want)
-                    ctx.sample({'rule': 'C14.R2', 'sent': got})
-            elif sends or 'excluding' in wnames:
-                ctx.report('C14.R2', where, 'disable outside an episode sends %d' % len(sends), tag)
+                            ok = False
+                if gi != len(got) or not ok:
+                    ctx.report(R('C14.R2'), where, 'sent %s for %s' % (got, '+'.join(a or 'other' for a in acts)),
+                               'the commands sent to the printer differ from the exit sequence %s (each exactly once, in '
+                               'order, whatever other actions match the same @-command)' % want)
+                ctx.sample({'rule': 'C14.R2', 'actions': acts, 'sent': got})
         else:
-            if writes or sends:
-                ctx.report('C14.R0', where, 'other action: ' + tag, 'an unsupported action changes state (writes %s, %d sends)'
-                           % (wnames, len(sends)))
+            extra = [w for w in wnames if w != '_exclusionEnabled']
+            if sends or extra:
+                ctx.report(R('C14.R2') if DIS in acts else 'C14.R0', where,
+                           '%s outside an episode: %d sends, writes %s' % ('+'.join(a or 'other' for a in acts), len(sends), extra),
+                           'no episode is open (or exclusion was already off), so the actions may only change the enabled flag: ' + tag)
         if other:
-            ctx.report('C14.R0', where, tag + ' side effects', 'unexpected effects %s' % [e[:2] for e in other][:3])
+            ctx.report(R('C14.R0'), where, tag + ' side effects', 'unexpected effects %s' % [e[:2] for e in other][:3])
 
 
 DISPATCHED = set()
@@ -177,7 +198,7 @@ def path_rules(col, gcode, paths, I):
             col.report('C14.R1', 'ExcludeRegionState.processLinearMoves', '%s excluded while disabled' % gcode,
                        'a move is treated as excluded although exclusion is disabled',
                        detail={'entry': p.entry, 'decisions': f.decisions()})
-        if ('ExcludeRegionState', 'processLinearMoves') not in f.calls:
+        if ('ExcludeRegionState', 'processLinearMoves') not in f.calls and gcode not in ('G0', 'G1'):
             continue
         col.instance('C14.R3', sig)
         from .pathfacts import exact_tracking
@@ -230,7 +251,7 @@ def machine_rule(ctx, tier):
 def run(ctx, tier):
     declare(ctx)
     machine_rule(ctx, tier)
-    I = make_interp(ctx.model, unroll=2 if tier == 'thorough' else 1)
+    I = make_interp(ctx.model, unroll=3 if tier == 'thorough' else 2)     # two / three matching entries per @-command
     at_rules(ctx, I)
     consts_rule(ctx)
     run_path_rules(ctx, __name__, 'path_rules', ['G0', 'G1', 'G2', 'G3'], unroll=1)
